@@ -256,13 +256,22 @@ for st, gk, variants in [(0, 'pawn', (0, 1, 3)), (0, 'king', (0, 2)), (0, 'castl
         reg('c13_chain_eq_s%d_%s_v%d' % (st, gk, v), 'C13', T, 3600, 16, 'chain 1: stated start %d + one symbolic push of group %s; chain 2: %s + optionally a stated concrete move; outcomes symbolic'
             % (st, gk, vd), 'c13::chain_eq::<_, %d, %d, %d>' % (st, KGCODE[gk], v), 's13', 66)
 WALK_LEN = {(5, 3): 4, (0, 3): 2, (5, 4): 8, (1, 3): 2, (0, 1): 1}
-for st, pre, gk, conc, nops in [(5, 3, None, 2, 2), (0, 3, None, 1, 2), (0, 3, None, 0, 2), (5, 4, None, 3, 2), (1, 3, None, 0, 3), (0, 1, 'king', 1, 2), (5, 3, None, 0, 4)]:
+def _seq(ops):
+    """concrete walker operations -> base-5 code (1 next, 2 prev, 3 start, 4 end), least significant digit first"""
+    code = 0
+    for o in reversed(ops):
+        code = code * 5 + {'next': 1, 'prev': 2, 'start': 3, 'end': 4}[o]
+    return code
+
+
+for st, pre, gk, ops, nops in [(5, 3, None, ['next', 'next', 'end'], 1), (0, 3, None, ['next'], 1), (0, 3, None, ['end', 'prev'], 1), (5, 3, None, ['next', 'next'], 2),
+                               (0, 1, 'king', ['next'], 1), (1, 3, None, [], 2)]:
     ln = WALK_LEN[(st, pre)] + (1 if gk else 0)
-    reg('c17_walker_s%d_p%d_%s_%d_%d' % (st, pre, gk or 'concrete', conc, nops), 'C17', T, 3600, 10 if nops < 4 else 28,
-        'stated chain of %d moves (start %d, prefix %d)%s; %d concrete next() calls, then %d symbolic walker operations'
-        % (ln, st, pre, ' extended by one symbolic accepted move of group ' + gk if gk else '', conc, nops),
-        'c13::walker_steps::<_, %d, %d, %d, %d, %d>' % (st, pre, KGCODE[gk] if gk else 0, conc, nops), 's13', 66,
-        bounds='chain of %d moves; %d symbolic walker operations after %d concrete ones' % (ln, nops, conc),
+    reg('c17_walker_s%d_p%d_%s_%s_%d' % (st, pre, gk or 'concrete', ''.join(o[0] for o in ops) or 'x', nops), 'C17', T, 3600, 10 if nops < 2 else 22,
+        'stated chain of %d moves (start %d, prefix %d)%s; concrete walker operations %s, then %d symbolic operation(s) from {next, prev, start, end}'
+        % (ln, st, pre, ' extended by one symbolic accepted move of group ' + gk if gk else '', ops, nops),
+        'c13::walker_steps::<_, %d, %d, %d, %d, %d>' % (st, pre, KGCODE[gk] if gk else 0, _seq(ops), nops), 's13', 66,
+        bounds='chain of %d moves; %d symbolic walker operation(s) after the stated concrete ones' % (ln, nops),
         props=['C17', 'C04'], gen_k=(ln, 0))
 reg('c14_outcome_filter_table', 'C14', QT, 300, 4, 'all outcomes x 3 filters (exhaustive)', 'c14::outcome_filter_table')
 reg('c14_chain_outcome_precedence', 'C14', QT, 900, 8, 'all board outcomes x every usize count x 3 filters', 'c14::chain_outcome_precedence', 's5', 66)
@@ -334,7 +343,7 @@ QUICK = {
     'C15': ['c15_leapers_exact', 'c15_between_exact', 'c15_bishop_exact'],
     'C16': ['c16_attackers_exact_w_by_white', 'c16_attackers_exact_w_by_black', 'c16_attackers_exact_b_by_white', 'c16_attackers_exact_b_by_black',
             'c16_check_queries_exact_w'],
-    'C17': ['c17_walker_s0_p3_concrete_1_2'],
+    'C17': ['c17_walker_s5_p3_concrete_nne_1', 'c17_walker_s0_p3_concrete_n_1'],
     'C18': ['c18_mirror_move_v_w_ep', 'c18_mirror_outcome_v_w'],
     'C19': ['c15_bishop_exact', 'c16_attackers_exact_w_by_black', 'c06_semilegal_validator_b_castling', 'c06_semilegal_validator_w_ep',
             'c03_make_unmake_b_pspecial', 'c11_validate_accept_b'],
@@ -355,7 +364,7 @@ THOROUGH = {
             'c10_uci_accept_semi_w', 'c10_uci_accept_make_b', 'c10_uci_parse_exact', 'c13_chain_push_pop_s0_p0_castling', 'c13_chain_push_pop_s1_p0_ep',
             'c13_chain_step_s0_p0_castling'],
     'C03': ['c03_make_unmake_*'],
-    'C04': ['c03_make_unmake_*', 'c04_nested_w_ep', 'c04_nested_b_castling', 'c13_chain_push_pop_s0_p0_castling', 'c13_chain_push_pop_s1_p0_ep', 'c17_walker_s0_p3_concrete_1_2'],
+    'C04': ['c03_make_unmake_*', 'c04_nested_w_ep', 'c04_nested_b_castling', 'c13_chain_push_pop_s0_p0_castling', 'c13_chain_push_pop_s1_p0_ep', 'c17_walker_s0_p3_concrete_n_1'],
     'C05': ['c05_hash_features', 'c05_scratch_hash_def', 'c05_hash_delta_*', 'c03_make_unmake_?_pspecial', 'c03_make_unmake_?_ep', 'c03_make_unmake_?_castling',
             'c11_validate_normal_w'],
     'C06': ['c06_wellformed_exact', 'c06_semilegal_validator_*', 'c06_semilegal_gen_pawns_all_?', 'c06_semilegal_gen_all_w', 'c06_semilegal_gen_capture_b'],
@@ -374,7 +383,7 @@ THOROUGH = {
             'c13_chain_step_s2_p0_other'],
     'C15': ['c15_*'],
     'C16': ['c16_*'],
-    'C17': ['c17_walker_s0_p3_concrete_1_2', 'c17_walker_s1_p3_concrete_0_3'],
+    'C17': ['c17_walker_s5_p3_concrete_nne_1', 'c17_walker_s0_p3_concrete_n_1', 'c17_walker_s0_p3_concrete_ep_1'],
     'C18': ['c18_mirror_move_v_?_ep', 'c18_mirror_move_v_?_castling', 'c18_mirror_move_v_w_king', 'c18_mirror_move_v_b_pspecial', 'c18_mirror_move_v_w_queen',
             'c18_mirror_move_h_w_pspecial', 'c18_mirror_move_h_b_ep', 'c18_mirror_outcome_*', 'c06_semilegal_gen_pawns_all_?'],
     'C19': ['c15_bishop_exact', 'c15_rook_exact', 'c05_scratch_hash_def', 'c16_attackers_exact_w_*', 'c16_check_queries_exact_b', 'c06_semilegal_validator_?_castling',
